@@ -183,6 +183,37 @@ theorem burst_overshoot_model {infos : List RuleInfo} {s : St} {H : List Arrival
   have hci : c.info ∈ infos := by rw [← rep'.shape]; exact List.mem_map_of_mem hc
   exact burst_overshoot RuleInfo.feed infos c.info hci hown t hcap k B now H hbefore ths hfresh hB sched hw
 
+/-- **C02, concurrent clause, end to end on the model**: after any monotone sequential history, a burst of any
+number of callers at `now`, under any schedule with at most `k` of them between check and record, leaves the
+window counter of every own-traffic rule with finite cap `t = ⌊T⌋` at most `(k-1)·B` above the cap. -/
+theorem par_overshoot (rules : List Rule) (t0 : Nat) (h0 : 0 < t0) (as : List Arrival) (hm : MonoA t0 as)
+    (now : Nat) (hle : ∀ x ∈ as, x.t ≤ now) (hle0 : t0 ≤ now)
+    (ths : List Thread) (hfresh : ∀ th ∈ ths, th.st = none) (B : Nat) (hB : ∀ th ∈ ths, th.b ≤ B)
+    (k : Nat) (sched : List Nat)
+    (hw : WidthOk k RuleInfo.feed (compile rules) (refRun RuleInfo.feed (compile rules) [] as).1 now ths sched)
+    (c : Ctrl) (hc : c ∈ (runSched (runEntries (load rules t0) as).1 now ths sched).1.ctrls)
+    (hown : c.info.feed = c.rule.res) (t : Nat) (hcap : c.rule.thr.cap = some t) :
+    c.cur (runSched (runEntries (load rules t0) as).1 now ths sched).1.nodes now ≤ t + (k - 1) * B := by
+  obtain ⟨l, hl, hl0, rep⟩ := runEntries_rep_le (load_rep rules t0 h0) h0 now hle0 as hm hle
+  have hpos : 0 < now := lt_of_lt_of_le hl0 hl
+  obtain ⟨_, rep'⟩ := runSched_eq_ref rep hl hpos ths
+    (fun th hth d hd => by rw [hfresh th hth] at hd; cases hd) sched
+  have hci : c.info ∈ compile rules := by rw [← rep'.shape]; exact List.mem_map_of_mem hc
+  refine burst_overshoot_model rep now hl hpos ths hfresh B hB k sched hw c hc hown t hcap ?_
+  have hcapd := window_cap rules t0 as hm c.info hci hown (cbs c.info.L now)
+  by_contra hx
+  have : c.rule.thr.exceeds (windowTokens (refRun RuleInfo.feed (compile rules) [] as).1 c.rule.res c.info.L c.info.Iv now) = true :=
+    (Thr.exceeds_iff_cap _ _).mpr ⟨t, hcap, by omega⟩
+  unfold windowTokens at this
+  have hcapd' : c.rule.thr.exceeds (refW c.info.L (histOf (refRun RuleInfo.feed (compile rules) [] as).1 c.rule.res)
+      (cbs c.info.L now + c.info.L - c.info.Iv) (cbs c.info.L now)) = false := hcapd
+  rw [this] at hcapd'
+  cases hcapd'
+
+/-- `WidthOk` is satisfiable with callers really overlapping: two callers, both checked before either records -/
+example : WidthOk 2 RuleInfo.feed [] [] 1000 [{ res := 1, b := 1 }, { res := 1, b := 1 }] [0, 1, 0, 1] := by
+  simp [WidthOk, refStepThread, refCheck, nParked, parked]
+
 /-- **any number of threads, any schedule, window rolls at any moment** (abstract small step with
 batches as weights): if at most `k` threads are between check and record, the window sum never exceeds
 `T + (k-1)·B`. -/
